@@ -221,18 +221,20 @@ def make_donor(root, d, made):
         w = getattr(parent, path[-1][0])
         v = w.pop(path[-1][1])
         return v, v
-    if k == 'child_span':
+    if k in ('child_span', 'child_span_doc'):
         # D15: a child whose span is the whole store of its free-standing parent
-        k0, path = d['ref']
-        roots, _ = pool()
-        parent = copy.deepcopy(resolve(roots[k0], path))
+        if k == 'child_span':
+            k0, path = d['ref']
+            roots, _ = pool()
+            parent = copy.deepcopy(resolve(roots[k0], path))
+        else:
+            parent = copy.deepcopy(resolve(root, d['path']))
         if is_tree(parent):
             for name, kind, _ in slots_of(parent):
                 for c in slot_children(parent, name, kind):
                     st = parent.token_store
-                    if type(c) is type(parent) or True:
-                        if c.first_token is st.get_first() and c.last_token is st.get_last():
-                            return c, parent
+                    if c.first_token is st.get_first() and c.last_token is st.get_last():
+                        return c, parent
         return parent, parent          # no such child: a plain free copy
     if k == 'dup':
         return made[d['of']]
@@ -452,7 +454,7 @@ def call(root, op, want_corr=True):
     T1 = list(store)
     rec = {'exn': type(exn).__name__ if exn else None, 'findings': findings, 'case': None,
            'bad_donor': any(d['k'] in ('attached_doc', 'attached_pool') for d in op.get('donors', [])),
-           'child_span': any(d['k'] == 'child_span' and v is not r for d, (v, r) in zip(op.get('donors', []), made))}
+           'child_span': any(d['k'] in ('child_span', 'child_span_doc') and v is not r for d, (v, r) in zip(op.get('donors', []), made))}
     if case is not None:
         try:
             pos1 = {id(t): i for i, t in enumerate(T1)}
@@ -810,11 +812,45 @@ def shrink_script(text, script, sig):
     return cur
 
 
+_OPEN2 = '2000-01-01 open Assets:Foo  AAA, BBB\n2000-01-02 open Assets:Bar  CCC\n'
+_CUR = lambda d, i: [['raw_directives_with_comments', d], ['raw_currencies', i]]
+_RC = {'parent': [['raw_directives_with_comments', 0]], 'attr': 'raw_currencies', 'kind': 'rep'}
+# fixed scripts that run first (the defects found while building this check; they must stay repaired)
+CORPUS = [
+    (_OPEN2, [{**_RC, 'op': 'setslice', 's': [0, 1, None],
+               'donors': [{'k': 'copy_doc', 'path': _CUR(1, 0)}, {'k': 'copy_doc', 'path': _CUR(0, 1)}]}]),     # D3
+    (_OPEN2, [{**_RC, 'op': 'insert', 'i': -1, 'donors': [{'k': 'copy_doc', 'path': _CUR(1, 0)}]}]),         # D4
+    (_OPEN2, [{**_RC, 'op': 'setslice', 's': [0, 2, None], 'donors': [{'k': 'attached_doc', 'path': _CUR(1, 0)}]}]),  # D6
+    (_OPEN2, [{**_RC, 'op': 'extend', 'donors': [{'k': 'copy_doc', 'path': _CUR(1, 0)},
+                                                 {'k': 'attached_doc', 'path': _CUR(1, 0)}]}]),            # D6
+    (_OPEN2, [{'parent': [['raw_directives_with_comments', 0]], 'attr': 'raw_date', 'kind': 'tok', 'op': 'raw_text',
+               'value': 'zzz'}]),                                                                            # D6
+    ('2000-01-01 balance Assets:Cash 1 + 2 USD\n2000-01-02 balance Assets:Cash 3 USD\n',
+     [{'parent': [['raw_directives_with_comments', 1], ['raw_number']], 'attr': 'raw_number_add_expr', 'kind': 'req',
+       'op': 'set_req', 'donors': [{'k': 'child_span_doc', 'path': [['raw_directives_with_comments', 0], ['raw_number']]}]}]),  # D15
+]
+
+
 def run_slots(ctx: common.Ctx, props, n_docs: int, n_ops: int):
     """props: which monitor signatures belong to the calling property ('C03' and/or 'C19')"""
     rng = ctx.rng
     cases, case_meta = [], []
     reported = set()
+    for text, script in CORPUS:
+        try:
+            findings, cs = replay_script(text, script)
+        except Exception as e:
+            findings, cs = [('C03:frame', 'corpus script crashed: ' + type(e).__name__),
+                            ('C19:refusal-not-atomic', 'corpus script crashed: ' + type(e).__name__)], []
+        ctx.dist('corpus')
+        ctx.case({'corpus': script[-1]['op'], 'attr': script[-1]['attr']})
+        for c in cs:
+            cases.append(c)
+            case_meta.append((text, script))
+        for sig, what in findings:
+            if sig.split(':')[0] in props:
+                reported.add(sig)
+                ctx.monitor_failure(sig, what, {'text': text, 'script': script})
     for di in range(n_docs):
         text = gen_docs.ledger(rng, n_dir=rng.choice([1, 2, 3, 4, 6]))
         root = gen_docs.parse_ok(text)
@@ -890,11 +926,11 @@ def run(ctx: common.Ctx):
         'mutators; they are watched by the monitors, not modelled here (C09/C10 model them)',
         'CPython slice/range semantics as modelled in PySeq.v (validated by C10 against CPython)']
     ctx.require_coq(['properties/C03'], extra_targets=['RepeatedRun'])
-    run_slots(ctx, ('C03',), ctx.scale(70, 700), 8)
+    run_slots(ctx, ('C03',), ctx.scale(200, 1500), 8)
 
 
 def search(ctx: common.Ctx):
-    run_slots(ctx, ('C03',), ctx.scale(70, 700), 8)
+    run_slots(ctx, ('C03',), ctx.scale(200, 1500), 8)
 
 
 def replay(ctx, path, props=('C03',)):
